@@ -604,3 +604,5 @@ LEVEL_TEXT = ("Machine-checked Lean 4 theorems about the writer side of the cycl
 LEVEL_NOTE = ("THE REFRESH INSIDE THE CYCLE (Props/C11Refresh.lean): C11_refresh_stable (for a re-read object no refresh is decided iff float(STOP text) == float(last index token)), C11_refresh_prec5 (a refreshing write over an index printed with 5 decimals is never refreshed again), C11_prepare_noop, C11_cycle_fixed_point (header sections, steering values, data tokens and in-memory STRT/STOP/STEP of the next cycle are those of the re-read object); counter-examples replayed on lasio: the recorded finding sss-shift-after-lossy-index-format over four cycles (stable from the third), and the re-spelling 1.00000 -> 1.0 of refreshed values (numerically equal). With the default `DLM . SPACE` item of lasio.LASFile() in ~Version (Props/C01FileDlm.lean, hypothesis DlmOK instead of 'no DLM item'): C03_file_dlm, C01_file_dlm(+_wrapYes, _unwrapped), C11_file_fixed_point_dlm / C11_file_iterate_dlm (all four steering values equal), C12_file_dlm; counter-examples DLM COMMA over blank-separated data (known finding dlm-not-space), DLM FOO (KeyError); two DLM items are ignored by the reader. proved: fixed-point properties of each writer-side ingredient, of a single conformant header line and of the whole written header "
               "(all sections, every number of cycles) and of the whole written data section; oracle + correspondence only: the refresh of "
               "STRT/STOP/STEP and units within the composed cycle, text columns, non-conformant lines (the known findings).")
+
+RULE = RULE + ("; ALSO (fifth session): stream `ro.full` (LasioModel/ReadObjFull.lean: typed sections, every cell, index_initial vs lasio.read); special documents `decimal-unit`")
